@@ -75,7 +75,7 @@ func c04CheckCode(code int, failMatch, failNot bool, absentOK404 bool, tag strin
 
 // c04Setup: object "o" absent or present (optionally patched once), plus a neighbour.
 func c04Setup() (*GcsEmu, vObjState, vObjState) {
-	g := vNewEmu()
+	g := vNewEmuOn(vChoice("store", 0, 1))
 	vPut(g, "b", "other", []byte("n"))
 	if vChoice("object.present", 0, 1) == 1 {
 		vPut(g, "b", "o", []byte("x"))
@@ -187,27 +187,39 @@ func H_C04_ops() {
 
 // H_C04_source: compose with a per-source ifGenerationMatch.
 func H_C04_source() {
-	g := vNewEmu()
-	src := vPut(g, "b", "src", []byte("s"))
+	g := vNewEmuOn(vChoice("store", 0, 1))
+	srcs := []*storage.Object{vPut(g, "b", "src", []byte("s")), vPut(g, "b", "src2", []byte("t"))}
 	vPut(g, "b", "dst", []byte("d"))
 	before := vSnap(g, "b", "dst")
-	gm := vNondetInt64("source.ifGenerationMatch")
+	// one or two sources; each carries an optional generation precondition with an arbitrary value
+	n := vChoice("sources", 1, 2)
+	var list []*storage.ComposeRequestSourceObjects
+	pass := true
+	for i := 0; i < n; i++ {
+		so := &storage.ComposeRequestSourceObjects{Name: srcs[i].Name}
+		if vChoice("source.conditioned", 0, 1) == 1 {
+			gm := vNondetInt64("source.ifGenerationMatch")
+			so.ObjectPreconditions = &storage.ComposeRequestSourceObjectsObjectPreconditions{IfGenerationMatch: gm}
+			pass = vAnd(pass, vOr(gm == 0, gm == srcs[i].Generation))
+		}
+		list = append(list, so)
+	}
 	w := vNewRecorder()
 	r := &http.Request{Body: &vBody{decode: func(v interface{}) error {
 		req := v.(*storage.ComposeRequest)
 		req.Destination = &storage.Object{}
-		req.SourceObjects = []*storage.ComposeRequestSourceObjects{{Name: "src", ObjectPreconditions: &storage.ComposeRequestSourceObjectsObjectPreconditions{IfGenerationMatch: gm}}}
+		req.SourceObjects = list
 		return nil
 	}}}
 	g.handleGcsCompose(vCtx(), dontNeedUrls, w, r, "b", "dst/compose", emptyConds)
 	after := vSnap(g, "b", "dst")
-	pass := vOr(gm == 0, gm == src.Generation)
-	vAssert((w.code == http.StatusOK) == pass, "compose-source:performed-iff-generation-matches")
+	vAssert((w.code == http.StatusOK) == pass, "compose-source:performed-iff-every-supplied-generation-matches")
 	if w.code != http.StatusOK {
 		vAssert(w.code == http.StatusPreconditionFailed, "compose-source:412")
 		vAssert(vSameState(before, after), "compose-source:failed-precondition-changes-nothing")
 		vReach("c04-source-fail")
 	} else {
+		vAssert(len(after.content) == n, "compose-source:composed")
 		vReach("c04-source-pass")
 	}
 }
